@@ -192,6 +192,15 @@ def run_check(pid, tier, seed, repo):
         d0 = disagreements[0]
         failures.append(f"correspondence: {len(disagreements)} disagreement(s) between model and implementation; first on op "
                         f"{d0['request']['op']}")
+    # 3b. site inventory (DESIGN §4.5) for the properties that lean on it
+    site_kinds = getattr(prop, "SITE_KINDS", None)
+    if site_kinds:
+        from . import sites
+        new, gone = sites.compare(repo, site_kinds)
+        ctx.stats["site_inventory"] = {"kinds": sorted(site_kinds), "new": new[:10], "gone": gone[:10]}
+        if new or gone:
+            failures.append(f"site inventory: {len(new)} new site(s) the model does not account for, {len(gone)} listed site(s) gone; "
+                            f"first: {(new or gone)[0]}")
     # 4/5. falsifier (audit always; focused on disagreeing inputs first)
     hits = []
     try:
